@@ -1,4 +1,5 @@
 SPECIFICATION Spec
 CONSTANT YLAST = 4095
 INVARIANTS InvRD InvWd InvYd InvIso InvU InvW InvC InvBdm InvBcum InvHij InvHijIn Anchors
+PROPERTIES SuccProps
 CHECK_DEADLOCK FALSE
